@@ -31,7 +31,16 @@ func newWorldW(cl *sim.Cluster, opts ...gohbase.Option) *world {
 		if w.closedAt >= 0 && w.quiet {
 			w.lateWork = append(w.lateWork, "dial "+addr)
 		}
+		if w.dialStarts == nil {
+			w.dialStarts = map[string]int{}
+		}
+		w.dialStarts[addr]++
 		vrt.Yield("dial")
+		if err := ctx.Err(); err != nil {
+			// like net.Dialer: a dial whose context ends before the connection is
+			// there fails with the context's error
+			return nil, err
+		}
 		wc := cl.Accept(addr, false)
 		if wc == nil {
 			return nil, errors.New("sim: connection refused")
@@ -354,6 +363,97 @@ func c20WUnits(thorough bool) []*explore.Unit {
 			return nil
 		}
 		units = append(units, u)
+	}
+	// Regions A=[,k) and B=[k,) of one server first used concurrently (two callers in A, one
+	// in B) while A splits server-side at step j of the run (an interrupt, every j): a
+	// caller whose lookup is answered after the split brings A's daughter into the cache
+	// while A - found by the other caller before the split - is still being established.
+	// The server is healthy throughout: one dial.
+	mkSplit := func(step int, nsteps *int, bound int) *explore.Unit {
+		var w *world
+		errs := make([]error, 3)
+		u := &explore.Unit{Name: fmt.Sprintf("wire|regions=2|callers=3|first region splits at step %d", step), Bound: bound, Opt: vrt.Options{MaxSteps: 80000}}
+		u.Body = func() {
+			cl := sim.NewCluster("rs0:1")
+			cl.AddTable("t", []string{"k"}, []string{"rs1:1"})
+			w = newWorldW(cl, gohbase.FlushInterval(0), gohbase.RpcQueueSize(1))
+			fin := make(chan int, 4)
+			late := false
+			tm := vrt.AfterFunc(time.Hour, func() { late = true })
+			vrt.GoInterrupt("h:split", func() bool { return late || (step >= 0 && vrt.Steps() >= step) }, func() {
+				tm.Stop()
+				if nsteps != nil {
+					*nsteps = vrt.Steps()
+				}
+				vrt.HLock()
+				cl.Split(regionOf(cl, "t", "a"), "e", "rs1:1", "rs1:1")
+				vrt.HUnlock()
+				vrt.Send(fin, -1)
+			})
+			for i, k := range []string{"a", "b", "m"} {
+				i, k := i, k
+				vrt.GoNamed(fmt.Sprintf("h:caller%d", i), func() {
+					errs[i] = doOp(w, "get", "t", k)
+					vrt.Send(fin, i)
+				})
+			}
+			for i := 0; i < 4; i++ {
+				vrt.Recv(fin)
+			}
+			vrt.Sleep(10 * time.Minute)
+			w.client.Close()
+			vrt.Sleep(10 * time.Minute)
+		}
+		u.Check = func(res *vrt.Result) *explore.Finding {
+			if f := baseFinding(res); f != nil {
+				return f
+			}
+			if res.Deadlock {
+				return &explore.Finding{Class: "caller-blocked", Msg: fmt.Sprintf("%v", res.Blocked)}
+			}
+			for _, e := range errs {
+				if e != nil {
+					return &explore.Finding{Class: "request-failed", Msg: e.Error()}
+				}
+			}
+			if d := w.dialStarts["rs1:1"]; d != 1 {
+				return &explore.Finding{Class: "server-dialled-more-often-than-needed", Msg: fmt.Sprintf("rs1:1 dialled %d times although its connections never failed (a region was replaced in the cache while the shared connection was being dialled)", d)}
+			}
+			if m := w.cl.MaxOpen["rs1:1"]; m > 1 {
+				return &explore.Finding{Class: "two-connections-open-to-one-server", Msg: fmt.Sprintf("%d", m)}
+			}
+			return nil
+		}
+		u.Sig = func() string { return fmt.Sprintf("dials=%v", w.dialStarts) }
+		return u
+	}
+	{
+		n := 0
+		vrt.Tracing = true
+		res, _ := explore.RunOnce(mkSplit(-1, &n, 0), nil)
+		vrt.Tracing = false
+		var ks []int
+		for i, line := range res.Trace {
+			st := res.TraceSteps[i]
+			if st > n || !strings.HasSuffix(line, "@0s") {
+				break
+			}
+			name := line[strings.IndexByte(line, ':')+1:]
+			if strings.HasPrefix(name, "h:srv") || strings.HasPrefix(name, "h:split") || strings.HasPrefix(name, "main ") {
+				continue
+			}
+			ks = append(ks, st)
+		}
+		b := 1
+		if thorough {
+			b = 2
+		}
+		for _, k := range ks {
+			units = append(units, mkSplit(k, nil, b))
+		}
+		if os.Getenv("VERIF_DEBUG") != "" {
+			fmt.Fprintf(os.Stderr, "c20W split: n=%d client steps=%d\n", n, len(ks))
+		}
 	}
 	return units
 }
